@@ -738,34 +738,34 @@ func refusalOrder(p *core.Prog, r *core.Report, rule string) {
 		args := core.CallArgs(c)
 		return len(args) == 4 && loadsGlobal(args[3], "ErrChannelClosed")
 	}
-		// the refusal frame goes out before anything that can re-evaluate the
-		// close state: once the last exchange is removed the connection may
-		// close and SendSystemError on a closed connection drops the frame.
-		if ce := p.Func("", "Connection", "checkExchanges"); ce != nil {
-			closers := p.CallersClosureWithin(map[*ssa.Function]bool{ce: true}, p.InAnalysed)
-			for k, rs := range core.CallsIn(f, "Connection.readState") {
-				fl := hypFlow(p, d, f, map[ssa.Value]core.Set{rs.Value(): nonActive})
-				res := core.ReachAvoiding(f, rs, func(i ssa.Instruction) bool {
-					c, ok := i.(ssa.CallInstruction)
-					if !ok || isSendClosed(i) {
-						return false
-					}
-					if _, isDefer := i.(*ssa.Defer); isDefer {
-						return false
-					}
-					return p.MayCall(c, closers)
-				}, isSendClosed, edgePrune(fl))
-				construct := fmt.Sprintf("refusal after observation #%d precedes any close-state re-evaluation", k+1)
-				if res.Found {
-					r.Fail(rule, fname(f), construct, p.Pos(rs.Pos()),
-						"a call that can remove the last exchange and close the connection runs before the declined frame is sent (the frame is then dropped): "+p.Pos(res.Exit.Pos()))
-				} else {
-					r.Ok(rule, fname(f), construct, p.Pos(rs.Pos()), "no call reaching checkExchanges lies between the observation and SendSystemError(…, ErrChannelClosed)")
+	// the refusal frame goes out before anything that can re-evaluate the
+	// close state: once the last exchange is removed the connection may
+	// close and SendSystemError on a closed connection drops the frame.
+	if ce := p.Func("", "Connection", "checkExchanges"); ce != nil {
+		closers := p.CallersClosureWithin(map[*ssa.Function]bool{ce: true}, p.InAnalysed)
+		for k, rs := range core.CallsIn(f, "Connection.readState") {
+			fl := hypFlow(p, d, f, map[ssa.Value]core.Set{rs.Value(): nonActive})
+			res := core.ReachAvoiding(f, rs, func(i ssa.Instruction) bool {
+				c, ok := i.(ssa.CallInstruction)
+				if !ok || isSendClosed(i) {
+					return false
 				}
+				if _, isDefer := i.(*ssa.Defer); isDefer {
+					return false
+				}
+				return p.MayCall(c, closers)
+			}, isSendClosed, edgePrune(fl))
+			construct := fmt.Sprintf("refusal after observation #%d precedes any close-state re-evaluation", k+1)
+			if res.Found {
+				r.Fail(rule, fname(f), construct, p.Pos(rs.Pos()),
+					"a call that can remove the last exchange and close the connection runs before the declined frame is sent (the frame is then dropped): "+p.Pos(res.Exit.Pos()))
+			} else {
+				r.Ok(rule, fname(f), construct, p.Pos(rs.Pos()), "no call reaching checkExchanges lies between the observation and SendSystemError(…, ErrChannelClosed)")
 			}
-		} else {
-			r.Errorf("Connection.checkExchanges does not resolve")
 		}
+	} else {
+		r.Errorf("Connection.checkExchanges does not resolve")
+	}
 }
 
 func c07Admission(p *core.Prog, r *core.Report) {
